@@ -5,6 +5,7 @@ import (
 	"fmt"
 	"runtime"
 	"strconv"
+	"strings"
 	"sync"
 	"time"
 
@@ -33,6 +34,7 @@ type actor struct {
 	release chan struct{}
 	gid     uint64
 	quit    chan struct{}
+	only    string // if set: park only at gates whose name has this prefix
 }
 
 type note struct {
@@ -89,6 +91,10 @@ func newActor(id int) *actor {
 
 type abandon struct{}
 
+// objGates lets a replay catch goroutines it did not start itself (e.g. the close
+// timer of the named-pipe registry): obj pointer -> handler called with the gate name.
+var objGates sync.Map
+
 // gateHook is installed as verifhook.Gate: controlled goroutines park here.
 func gateHook(obj any, point string) {
 	g := goid()
@@ -96,6 +102,12 @@ func gateHook(obj any, point string) {
 	a := actors[g]
 	actorsMu.RUnlock()
 	if a == nil {
+		if h, ok := objGates.Load(obj); ok {
+			h.(func(string))(point)
+		}
+		return
+	}
+	if a.only != "" && !strings.HasPrefix(point, a.only) {
 		return
 	}
 	a.note <- note{parked: true, point: point}
